@@ -19,7 +19,7 @@ import struct
 PROP = "C04"
 PROPS_MODULE = "BiotiteModel.Props.C04"
 DRIVER_MODULE = "BiotiteModel.Driver.C04"
-EXT_MODULES = ["biotite.structure.bonds"]
+EXT_MODULES = ["biotite.structure.bonds", "biotite.structure.io.pdbx.encoding"]
 GEN_FILES = ["BiotiteModel/Gen/C04.lean"]
 RULE = ("seeded well-formed structures (1-4 chains, negative residue ids, insertion codes, hetero flags, names with "
         "quotes/primes, 1-4 models, optional fields on/off, box, intra-/inter-residue bonds of every type, backbone "
@@ -378,6 +378,19 @@ def _rand_f32(rng, nice):
             return x
 
 
+def _neg_cloud_column(rng, count, f32=True):
+    """All values negative: magnitudes 25..9000 with 3 decimals, and 1-2 tiny high-precision values (1e-4..1e-6)."""
+    import numpy as np
+    centre = -rng.uniform(60, 8900)
+    vals = [round(min(-25.0, centre + rng.uniform(-30, 30)), 3) for _ in range(count)]
+    for _ in range(rng.choice([1, 1, 2])):
+        mant = rng.randint(10000, 99999) / 10000.0
+        vals[rng.randrange(count)] = -mant * 10.0 ** rng.choice([-4, -5, -6])
+    if f32:
+        return [float(np.float32(v)) for v in vals]
+    return vals
+
+
 def _template(rng, name, templates):
     """atom names + intra bonds (by name) of a component; CCD components use the CCD bonds."""
     if name in templates:
@@ -530,6 +543,12 @@ def gen_spec(rng, flavour="valid"):
     stack = m > 1 or rng.random() < 0.3
     nice = rng.random() < 0.5
     coords = [[xyz_tok([_rand_f32(rng, nice) for _ in range(3)]) for _ in range(n)] for _ in range(m)]
+    neg_cloud = rng.random() < 0.18
+    if neg_cloud:
+        # a molecule far in the negative octant (every value of a column negative, large magnitude, 3 decimals)
+        # plus a few tiny high-precision values: the compressed form must not lose either
+        cols = [_neg_cloud_column(rng, n * m) for _ in range(3)]
+        coords = [[xyz_tok([cols[a][k * n + i] for a in range(3)]) for i in range(n)] for k in range(m)]
     box = None
     if rng.random() < 0.5:
         box = [rng.randint(10, 200) + rng.choice([0, 0.5, 0.25]), rng.randint(10, 200), rng.randint(10, 200) + 0.125,
@@ -539,10 +558,75 @@ def gen_spec(rng, flavour="valid"):
             "b_factor": [rng.randint(0, 99999) / 100.0 for _ in range(n)] if rng.random() < 0.4 else None,
             "occupancy": [rng.choice([1.0, 0.5, 0.25, 0.7, 0.33]) for _ in range(n)] if rng.random() < 0.4 else None,
             "extra": {}}
+    if neg_cloud and rng.random() < 0.6:
+        spec["b_factor"] = [float(v) for v in _neg_cloud_column(rng, n, f32=False)]
+    if neg_cloud and rng.random() < 0.4:
+        spec["occupancy"] = [float(v) for v in _neg_cloud_column(rng, n, f32=False)]
     if rng.random() < 0.3:
         spec["extra"]["my_field"] = [rng.choice(["a", "b'", "c\"d", "x-1", "Zé", "0"]) for _ in range(n)]
     if rng.random() < 0.1:
         spec["extra"]["second"] = [rng.choice(["u", "v"]) for _ in range(n)]
+    return spec
+
+
+_W = ["A", "b1", "O5", "x", "Zn", "7", "CA", "h"]
+_J = [" ", "' ", " '", "\" ", " \"", "' \"", "'", "\"", " ", "' x \""]
+_PRE = ["", "", "", "_", "#", ";", "data_", "loop_"]
+
+
+def weird(rng, used, maxlen=None):
+    """An annotation string with inner blanks combined with ', ", both, or a leading _ # ; (never leading/trailing
+    blank, never '.', '?')."""
+    while True:
+        v = rng.choice(_PRE) + rng.choice(_W) + rng.choice(_J) + rng.choice(_W)
+        if rng.random() < 0.25:
+            v += rng.choice(_J) + rng.choice(_W)
+        if v not in used and v.upper() not in CCD and v == v.strip():
+            used.add(v)
+            return v
+
+
+def weirdify(rng, spec):
+    """Rename chains, non-dictionary residues and their atoms, insertion codes, elements and extra fields
+    injectively with strings of the `weird` grammar (the structure stays well-formed)."""
+    used = set()
+    chain_map, res_map, atom_map, ins_map = {}, {}, {}, {}
+    for a in spec["atoms"]:
+        if a[0] not in chain_map:
+            chain_map[a[0]] = weird(rng, used) if rng.random() < 0.7 else a[0]
+        if a[3].upper() not in CCD:
+            if a[3] not in res_map:
+                res_map[a[3]] = weird(rng, used) if rng.random() < 0.7 else a[3]
+            key = (a[3], a[5])
+            if key not in atom_map:
+                atom_map[key] = weird(rng, used) if rng.random() < 0.7 else a[5]
+        if a[2] and a[2] not in ins_map:
+            ins_map[a[2]] = weird(rng, used) if rng.random() < 0.7 else a[2]
+    for a in spec["atoms"]:
+        old_res, old_atom = a[3], a[5]
+        a[0] = chain_map[a[0]]
+        if old_res in res_map:
+            a[3] = res_map[old_res]
+            a[5] = atom_map[(old_res, old_atom)]
+        if a[2]:
+            a[2] = ins_map[a[2]]
+        if rng.random() < 0.3:
+            a[6] = weird(rng, set())
+    n = len(spec["atoms"])
+    spec["extra"]["my_field"] = [weird(rng, set()) if rng.random() < 0.6 else "q" for _ in range(n)]
+    return spec
+
+
+def gen_single_atom(rng):
+    """One atom: atom_site is written as a single-row (non-looped) category in the CIF text form."""
+    used = set()
+    w = lambda: weird(rng, used) if rng.random() < 0.75 else rng.choice(["A", "X1"])  # noqa: E731
+    atom = [w(), rng.randint(-9, 99), rng.choice(["", "", w()]), w(), rng.random() < 0.5, w(), w(), rng.randint(-1, 1), 7]
+    stack = rng.random() < 0.3
+    spec = {"atoms": [atom], "stack": stack, "coords": [[xyz_tok([_rand_f32(rng, True) for _ in range(3)])]], "box": None,
+            "bonds": None, "has_charge": rng.random() < 0.5, "has_atom_id": rng.random() < 0.5,
+            "b_factor": [12.5] if rng.random() < 0.5 else None, "occupancy": None,
+            "extra": {"my_field": [w()]} if rng.random() < 0.7 else {}}
     return spec
 
 
@@ -698,8 +782,12 @@ def cases(rng, tier):
     n = 400 if tier == "quick" else 5000
     for k in range(n):
         r = rng.random()
-        if r < 0.62:
+        if r < 0.40:
             yield _struct_case(rng, gen_spec(rng, "valid"))
+        elif r < 0.56:
+            yield _struct_case(rng, weirdify(rng, gen_spec(rng, "valid")), "struct-strings")
+        elif r < 0.62:
+            yield _struct_case(rng, gen_single_atom(rng), "struct-strings")
         elif r < 0.70:
             yield _struct_case(rng, gen_spec(rng, "limit"), "struct-limit")
         elif r < 0.80:
@@ -1278,7 +1366,7 @@ def _oracle_models(case):
 
 def oracle(case):
     k = case.get("kind")
-    if k in ("struct", "struct-limit", "malformed"):
+    if k in ("struct", "struct-limit", "struct-strings", "malformed"):
         return _oracle_struct(case)
     if k == "altloc":
         return _oracle_altloc(case)
@@ -1331,7 +1419,7 @@ def search(rng, problems, tier):
 def shrink(case, key):
     """Drop bonds / models / optional fields while the same key is still reported."""
     spec = case.get("spec")
-    if not spec or case.get("kind") not in ("struct", "struct-limit"):
+    if not spec or case.get("kind") not in ("struct", "struct-limit", "struct-strings"):
         return case
     import copy
     import random
